@@ -311,7 +311,7 @@ func main() {
 		"token-mutated files (delete/duplicate/swap/replace/insert one token of a generated or sampled file). Excluded (counted): files with type parameters/instantiations/constraint syntax (detected on go/parser's tree), "+
 		"files using the identifier `macro` or the character ~. Oracle: go/parser accepts => fork accepts and package name + every declaration identical incl. positions (and again with ParseComments incl. Doc/Comment groups); "+
 		"go/parser rejects => fork reports an error or returns a non-file node list; never a panic. A case is non-trivial when it is a valid file with >=1 declaration or an invalid file; distinct by SHA-256 of the text (files: by path)")
-	wd = vh.NewWatchdog(rep, 60*time.Second)
+	wd = vh.NewWatchdog(rep, 180*time.Second)
 	verif := os.Getenv("VERIF_DIR")
 	if verif == "" {
 		verif = "/verif"
